@@ -3,6 +3,7 @@
 Serves C01 (rev, real), C02 (fwd, real), C04 (adjointness + linearity), C05 (structure),
 C07 (order 2, mixed modes), C09 (complex convention, both modes)."""
 import operator
+import os
 import time
 import traceback
 import warnings
@@ -820,7 +821,7 @@ def extra_struct_cases(rng):
 
 def make_cases(pid, tier, seed):
     mode = MODE[pid]
-    reps = 1 if tier == "quick" else 4
+    reps = (2 if pid in ("C01", "C02", "C09") else 1) if tier == "quick" else 6
     out = []
     import os
 
@@ -963,6 +964,75 @@ def _record(res, pid, c, o, mode, sample_every=400):
                 res["sets"].setdefault("order2_errors", set()).add("%s %s %s" % (c["prim"], m, e[:60]))
 
 
+def order2_program(res, rng, i):
+    """C07 on random dataflow programs (fan-out, diamonds, multi-edges, sparse/dense mixes, user
+    primitives): Hessian-vector products by rev-over-rev, fwd-over-rev, rev-over-fwd must agree with each
+    other and with the FD derivative of the first-order gradient; <u,Hv> = <v,Hu>."""
+    import autograd.numpy as anp
+    from autograd.core import make_jvp, make_vjp
+
+    from ..gen import programs
+    from .graph import RAW_USER, user_prims
+
+    U = user_prims()
+    shape = [(3,), (2, 2), (4,)][i % 3]
+    prog = programs.gen_program(rng, n_ops=int(rng.choice([4, 8, 14, 22])), shape=shape, p_dead=0.15, p_multi=float(rng.choice([0.0, 0.3, 0.6])), families=("unary", "binary", "alias", "sparse", "reduce", "user"), fan=int(rng.integers(1, 6)))
+    x = rng.uniform(0.3, 1.2, size=shape) * rng.choice([-1.0, 1.0], size=shape)
+    st = programs.structure_signature(prog)
+    sig = {"engine": "prim", "family": "program_order2", "ops": st["ops"], "n_ops": min(st["n_ops"] // 10 * 10, 30), "multi_edges": min(st["multi_edges"], 3), "max_fanout": min(st["max_fanout"], 5), "mode": "order2"}
+    case = {"kind": "program_order2", "prog": programs.enc_program(prog), "x": enc(x)}
+    res["evaluations"] += 1
+    if not st["depends_on_x"] or not programs.well_scaled(prog, x, RAW_USER, bound=1e3):
+        res["not_judged"]["ill_scaled_or_independent"] = res["not_judged"].get("ill_scaled_or_independent", 0) + 1
+        return
+    if any(o["op"] == "maxs" for o in prog["ops"]):
+        pass
+    f = lambda t: programs.interpret(prog, t, anp, U)
+    gradf = lambda t: make_vjp(f, t)[0](1.0)
+    v = rng.standard_normal(shape)
+    u = rng.standard_normal(shape)
+
+    def viol(symptom, detail):
+        s2 = dict(sig, symptom=symptom)
+        res["violations"].append({"sig": s2, "case": case, "detail": detail})
+        res["judged"][sig_key(s2)] = res["judged"].get(sig_key(s2), 0) + 1
+
+    with warnings.catch_warnings():
+        warnings.simplefilter("ignore")
+        try:
+            rr_v = make_vjp(lambda t: anp.sum(gradf(t) * v), x)[0](1.0)
+            rr_u = make_vjp(lambda t: anp.sum(gradf(t) * u), x)[0](1.0)
+            fr_v = make_jvp(gradf, x)(v)[1]
+            rf_v = make_vjp(lambda t: make_jvp(f, t)(v)[1], x)[0](1.0)
+            ff_vv = make_jvp(lambda t: make_jvp(f, t)(v)[1], x)(v)[1]
+        except NotImplementedError:
+            res["not_judged"]["unsupported_combination"] = res["not_judged"].get("unsupported_combination", 0) + 1
+            return
+        except Exception as e:
+            return viol("exception:" + type(e).__name__, traceback.format_exc()[-400:])
+        xf, vf = realify(x), realify(v)
+        G = lambda t_: realify(gradf(unrealify(t_, x)))
+        fd = fd_directional(G, xf, vf)
+    if not fd.ok:
+        res["not_judged"]["irregular_point"] = res["not_judged"].get("irregular_point", 0) + 1
+        return
+    scale = 1.0 + float(onp.max(onp.abs(fd.val)))
+    for nm, hv in (("rr", rr_v), ("fr", fr_v), ("rf", rf_v)):
+        if find_boxes(hv) or onp.shape(hv) != shape:
+            return viol("wrong_shape", "%s HVP %r" % (nm, onp.shape(hv)))
+        if float(onp.max(onp.abs(realify(hv) - fd.val))) > 1e-6 * scale:
+            return viol("wrong_value", "%s HVP deviates from FD-of-gradient by %r (scale %r)" % (nm, float(onp.max(onp.abs(realify(hv) - fd.val))), scale))
+    if float(onp.max(onp.abs(realify(rr_v) - realify(fr_v)))) > 1e-9 * scale or float(onp.max(onp.abs(realify(rr_v) - realify(rf_v)))) > 1e-9 * scale:
+        return viol("modes_disagree", "rr/fr/rf HVPs differ")
+    if abs(float(ff_vv) - pair(vf, realify(rr_v))) > 1e-9 * (1.0 + float(onp.sum(onp.abs(vf * realify(rr_v))))):
+        return viol("modes_disagree", "fwd-over-fwd v'Hv %r vs %r" % (float(ff_vv), pair(vf, realify(rr_v))))
+    a_, b_ = pair(realify(u), realify(rr_v)), pair(vf, realify(rr_u))
+    if abs(a_ - b_) > 1e-9 * (1.0 + float(onp.sum(onp.abs(realify(u) * realify(rr_v)))) + float(onp.sum(onp.abs(vf * realify(rr_u))))):
+        return viol("hessian_asymmetric", "<u,Hv>=%r <v,Hu>=%r" % (a_, b_))
+    res["judged"][sig_key(sig)] = res["judged"].get(sig_key(sig), 0) + 1
+    res["counters"]["order2_programs"] = res["counters"].get("order2_programs", 0) + 1
+
+
 def run_shard(pid, tier, seed, idx, n):
     common.setup_repo()
     cases = make_cases(pid, tier, seed)
@@ -984,6 +1054,14 @@ def run_shard(pid, tier, seed, idx, n):
             res["evaluations"] += 1
             continue
         _record(res, pid, c, o, mode)
+    if pid == "C07" and os.environ.get("VF_SCIPY") != "1":
+        nprog = 1200 if tier == "quick" else 20000
+        for i in range(idx, nprog, n):
+            try:
+                order2_program(res, onp.random.Generator(onp.random.PCG64([seed, i, 107])), i)
+            except Exception:
+                res["not_judged"]["harness_error"] = res["not_judged"].get("harness_error", 0) + 1
+                res["sets"].setdefault("harness_errors", set()).add(traceback.format_exc()[-300:])
     res["sets"] = {k: sorted(v) for k, v in res["sets"].items()}
     res["counters"]["wall_ms"] = int((time.time() - t0) * 1000)
     return res
@@ -991,6 +1069,29 @@ def run_shard(pid, tier, seed, idx, n):
 
 def replay(pid, case_enc):
     common.setup_repo()
+    if isinstance(case_enc, dict) and case_enc.get("kind") == "program_order2":
+        from ..gen import programs
+
+        res = _new_result()
+        # re-run through the same evaluator with the stored program
+        prog = programs.dec_program(case_enc["prog"])
+        x = dec(case_enc["x"])
+        import autograd.numpy as anp
+        from autograd.core import make_jvp, make_vjp
+        from .graph import user_prims
+
+        f = lambda t: programs.interpret(prog, t, anp, user_prims())
+        gradf = lambda t: make_vjp(f, t)[0](1.0)
+        v = onp.ones(onp.shape(x))
+        rr = make_vjp(lambda t: anp.sum(gradf(t) * v), x)[0](1.0)
+        fr = make_jvp(gradf, x)(v)[1]
+        fd = fd_directional(lambda t_: realify(gradf(unrealify(t_, x))), realify(x), realify(v))
+        sig = {"engine": "prim", "family": "program_order2"}
+        if fd.ok and (float(onp.max(onp.abs(realify(rr) - fd.val))) > 1e-6 * (1 + float(onp.max(onp.abs(fd.val)))) or float(onp.max(onp.abs(realify(rr) - realify(fr)))) > 1e-9 * (1 + float(onp.max(onp.abs(fd.val))))):
+            res["violations"].append({"sig": dict(sig, symptom="wrong_value"), "case": case_enc, "detail": "HVP mismatch"})
+        else:
+            res["judged"]["replay"] = 1
+        return res
     c = decode_case(case_enc)
     res = _new_result()
     for t in range(3):
